@@ -47,7 +47,97 @@ func genPlanFiles(r *hx.Rng) []immutable.VerifPlanFile {
 	return out
 }
 
+// runFullPlans: what a measurement contributes to a full-compaction plan (fullCompacted, the
+// group builder in low-level and in normal mode) against OG.C03.FullPlan; the property checked
+// here: every group is a contiguous block; in low-level mode its files are below the level and
+// its neighbours are not; the output of a group sorts strictly between its neighbours.
+func runFullPlans(c *hx.Ctx, r *hx.Rng, n int) {
+	for i := 0; i < n; i++ {
+		fs := genPlanFiles(r)
+		if r.Chance(10) && len(fs) > 0 { // a fully compacted measurement: the parts of one output
+			f0 := fs[0]
+			fs = fs[:0]
+			for e := 0; e < 1+r.Intn(3); e++ {
+				fs = append(fs, immutable.VerifPlanFile{Level: f0.Level, Seq: f0.Seq, Ext: uint16(e)})
+			}
+		}
+		to := uint16([]int{0, 0, 1, 2, 3}[r.Intn(5)])
+		parquet := uint16([]int{0, 0, 0, 1, 2}[r.Intn(5)])
+		var toks []string
+		for _, f := range fs {
+			toks = append(toks, fmt.Sprintf("%d:%d:%d", f.Level, f.Seq, f.Ext))
+		}
+		var groups [][]int
+		var lvs []uint16
+		var skipped, refused bool
+		perr := hx.Safe(func() { groups, lvs, skipped, refused = immutable.VerifFullPlan(fs, to, parquet) })
+		ans := ""
+		switch {
+		case perr != "":
+			ans = "err " + strings.SplitN(perr, "\n", 2)[0]
+		case skipped:
+			ans = "skipped"
+		case refused:
+			ans = "refused"
+		default:
+			var ps []string
+			for gi, g := range groups {
+				var is []string
+				for _, x := range g {
+					is = append(is, fmt.Sprint(x))
+				}
+				ps = append(ps, strings.Join(is, ",")+"@"+fmt.Sprint(lvs[gi]))
+			}
+			ans = "groups " + strings.Join(ps, ";")
+		}
+		line := c.Emit(fmt.Sprintf("fullplan to=%d parquet=%d files=%s", to, parquet, strings.Join(toks, ",")), ans)
+		consistent := true
+		for j := 1; j < len(fs); j++ {
+			if fs[j].Seq == fs[j-1].Seq && fs[j].Level != fs[j-1].Level {
+				consistent = false
+			}
+		}
+		var bad []string
+		if perr != "" {
+			bad = append(bad, "builder panicked: "+perr)
+		}
+		prevEnd := -1
+		for _, g := range groups {
+			if len(g) == 0 {
+				bad = append(bad, "empty group")
+				continue
+			}
+			for k, x := range g {
+				if k > 0 && x != g[k-1]+1 {
+					bad = append(bad, fmt.Sprintf("group %v is not a contiguous block", g))
+				}
+				if to > 0 && fs[x].Level >= to {
+					bad = append(bad, fmt.Sprintf("group %v holds a file of level %d, not below %d", g, fs[x].Level, to))
+				}
+			}
+			if g[0] <= prevEnd {
+				bad = append(bad, fmt.Sprintf("group %v overlaps the group before it", g))
+			}
+			prevEnd = g[len(g)-1]
+			if consistent {
+				if a := g[0] - 1; a >= 0 && fs[a].Seq >= fs[g[0]].Seq {
+					bad = append(bad, fmt.Sprintf("the output of group %v does not sort after the file before it", g))
+				}
+				if b := g[len(g)-1] + 1; b < len(fs) && fs[b].Seq <= fs[g[0]].Seq {
+					bad = append(bad, fmt.Sprintf("the output of group %v does not sort before the file after it", g))
+				}
+			}
+		}
+		c.Count("fullplan:" + strings.SplitN(ans, " ", 2)[0])
+		c.Case(fmt.Sprintf("fullplan|%d|%d|%s", to, parquet, strings.Join(toks, ",")), len(groups) > 0)
+		if len(bad) > 0 {
+			c.Violation(line, "", fmt.Sprintf("full plan to=%d parquet=%d files=%v: %s", to, parquet, toks, strings.Join(bad, "; ")))
+		}
+	}
+}
+
 func runPlans(c *hx.Ctx, r *hx.Rng, n int) {
+	runFullPlans(c, r.Fork(), n/3)
 	for i := 0; i < n; i++ {
 		fs := genPlanFiles(r)
 		level := uint16(r.Intn(3))
